@@ -22,13 +22,13 @@ RULE = ('seeded stratified generation: kind (mpf, mpc, matrix) x value family (z
 ASSUMPTIONS = ['only values of the global mp context are in the quantifier (pickling a value of a cloned context raises PicklingError today: recorded as an observation)',
                'nan never compares equal to itself, so == is asserted only for values that equal themselves; the raw representation is asserted always',
                'values are injected exactly through make_mpf / make_mpc; results read from ._mpf_ / ._mpc_ / the matrix entry dictionary']
-LEVEL_TEXT = ('exploration: ~1.5*10^5 (quick) / ~3*10^6 (thorough) round trips and copies of generated values on the real code, each compared '
+LEVEL_TEXT = ('exploration: ~1.5*10^5 (quick) / ~1.8*10^6 (thorough) round trips and copies of generated values on the real code, each compared '
               'field by field with the original; matrix copies additionally mutated to observe independence')
 LEVEL_NOTE = 'exact comparison, no oracle arithmetic needed; values not generated are not covered'
 TECHNIQUE = 'runtime monitor of round-trip results and post-mutation states (exact comparison with the original object state)'
 
 NSHARDS = 16
-VALUES = {'quick': 1000, 'thorough': 21000}
+VALUES = {'quick': 1000, 'thorough': 12000}
 PROTOCOLS = [0, 1, 2, 3, 4, 5]
 
 
